@@ -1,11 +1,17 @@
 """C14 - binding mode C: seeded larger cases run through the real code, logged as ndjson events and judged by
 TLC against the definitions of specs/TraceSparse.tla.
 
+Recipe kinds: coo (dense image -> sparse frame -> dense image; coo_recipe = a few lit pixels on shapes up to
+65535 columns, full_recipe = selections up to the full image with the whole image logged, float cuts below zero
+and off the binary32 grid, tall_mask_recipe; field threads = thread count of mask_to_coo's loops), ovl (one frame
+pair, fresh objects), hist (hist_recipe: one overlaps_linear / overlaps_matrix pair through 6-8 different frame
+pairs, chained ones also through pairrow with the frames stored out of omega order), range.
+
 recipe  (JSON-able, everything needed to re-execute the case: saved in replay files)
   -> exec_*(recipe, mods)  runs the real API, returns (event, direct_failures)
   -> validate(events)      TLC evaluates the property's definitions on each event, one verdict per event
 """
-import os, json
+import os, json, math
 import numpy as np
 import common
 import c14_replay
@@ -26,6 +32,19 @@ def scaled(v, dname):
         assert k == int(k), v
         return int(k)
     return int(v)
+
+
+def scaled_cut(cut, dname, kernel=True):
+    """the cut as the integer TLC compares the scaled pixel values with.  For integer v (all scaled values are
+    integers)  v > c  <=>  v > floor(c), so cuts that are no multiples of 1/4 (or no binary32 numbers at all) have
+    an exact integer stand-in.  kernel=True (tosparse_* / from_data_cut): uint16 takes the C int itself, uint32
+    and float32 receive a C float, so c = float32(cut).  kernel=False (sparse_frame.threshold: a numpy comparison
+    of the pixel array with the Python number): c = cut; the seeded float cuts are chosen such that no pixel
+    value (a multiple of 1/4) lies between cut and float32(cut), whichever of the two numpy compares with."""
+    if dname == "uint16":
+        return int(math.floor(cut))
+    c = float(np.float32(cut)) if kernel else cut
+    return int(math.floor(4.0 * c)) if dname == "float32" else int(math.floor(c))
 
 
 # ------------------------------------------------------------------------------------------------
@@ -83,7 +102,8 @@ def coo_recipe(rng, idx):
     lit = [[p[0], p[1], v] for p, v in zip(pos, vals)]
     rec = {"prog": "big", "kind": "coo", "dtype": dname, "route": route, "ns": ns, "nf": nf, "lit": lit,
            "on": [], "off": [], "cut": 0, "maskdtype": ["int8", "bool", "uint8"][rng.randint(3)],
-           "perm_seed": int(rng.randint(1 << 30))}
+           "perm_seed": int(rng.randint(1 << 30)),
+           "threads": [1, 2, 4, 16][(idx // 3) % 4]}           # mask_to_coo's two omp loops (the other routes ignore it)
     extra = _positions(rng, ns, nf, int(rng.randint(0, 20)))          # unlit pixels
     litpos = set((p[0], p[1]) for p in pos)
     extra = [p for p in extra if (p[0], p[1]) not in litpos]
@@ -116,6 +136,69 @@ def coo_recipe(rng, idx):
             lit[0][2] = abs(lit[0][2]) or 1
             rec["cut"] = 0
     return rec
+
+
+FULL_SHAPES = [(64, 64), (5, 300), (3, 3), (1, 1), (300, 5), (2, 2)]
+FULL_ROUTES = [("from_data_mask", "uint16"), ("mask_to_coo", "uint16"), ("from_data_cut", "float32"),
+               ("from_data_cut", "uint16"), ("tosparse", "uint32"), ("from_data_mask+threshold", "float32"),
+               ("tosparse", "float32"), ("from_data_mask+sort", "uint32"), ("from_data_cut+sort", "float32")]
+# float cuts: negative, not a multiple of 1/4 (so not a scaled integer), not binary32 numbers
+FLOAT_CUTS = [-0.75, -0.3, 0.1, 0.3, -100.0, 0.0, -0.25]
+
+
+def full_recipe(rng, idx):
+    """selections up to the FULL image on shapes that TLC can hold completely (event field img): every pixel set
+    in the mask / every pixel above the cut, float cuts below zero (zero pixels are selected too) and cuts that
+    are not binary32 numbers, thread counts 2 / 4 / 16.  Plus one tall all-set mask through mask_to_coo."""
+    route, dname = FULL_ROUTES[idx % len(FULL_ROUTES)]
+    ns, nf = FULL_SHAPES[(idx // 2) % len(FULL_SHAPES)] if idx >= 3 else FULL_SHAPES[idx % 2]
+    n = ns * nf
+    vals = _values(rng, dname, n)
+    if dname == "float32":          # some pixels exactly 0 and some below zero: a negative cut tells them apart
+        for k in range(n):
+            if rng.rand() < 0.25:
+                vals[k] = [0.0, -0.25, -0.5, -1.0, -200.0][rng.randint(5)]
+    elif rng.rand() < 0.5:
+        for k in range(n):
+            if rng.rand() < 0.1:
+                vals[k] = 0
+    lit = [[k // nf, k % nf, vals[k]] for k in range(n) if vals[k] != 0]
+    rec = {"prog": "big", "kind": "coo", "dtype": dname, "route": route, "ns": ns, "nf": nf, "lit": lit, "full": True,
+           "on": [], "off": [], "cut": 0, "maskdtype": ["int8", "bool", "uint8"][rng.randint(3)],
+           "perm_seed": int(rng.randint(1 << 30)), "threads": [16, 2, 4][idx % 3]}
+    allpx = [[k // nf, k % nf] for k in range(n)]
+    if route.startswith("from_data_mask") or route == "mask_to_coo":
+        rec["on"] = allpx if rng.rand() < 0.7 else [q for q in allpx if rng.rand() < 0.9] or allpx[:1]
+        if route == "from_data_mask+threshold":         # below every pixel / inside the range
+            rec["cut"] = FLOAT_CUTS[rng.randint(len(FLOAT_CUTS))] if rng.rand() < 0.6 else -1000.0
+    else:
+        rec["off"] = [] if rng.rand() < 0.5 else [q for q in allpx if rng.rand() < 0.05]
+        if dname == "float32":
+            rec["cut"] = FLOAT_CUTS[rng.randint(len(FLOAT_CUTS))]
+        elif dname == "uint32":
+            rec["cut"] = [0.5, 0.0, 1.75, 65535.5][rng.randint(4)]      # truncated by the kernel
+        else:
+            rec["cut"] = int([0, 0, 1, 254][rng.randint(4)])
+    offs = set((q[0], q[1]) for q in rec["off"])
+    sc = scaled_cut(rec["cut"], dname, kernel=not route.endswith("+threshold"))
+    if route.startswith("from_data_mask") or route == "mask_to_coo":
+        if route == "from_data_mask+threshold":
+            ons = set((q[0], q[1]) for q in rec["on"])
+            if not [1 for k in range(n) if (k // nf, k % nf) in ons and scaled(vals[k], dname) > sc]:
+                rec["cut"] = -1000.0
+    elif not [1 for k in range(n) if (k // nf, k % nf) not in offs and scaled(vals[k], dname) > sc]:
+        # the quantifier wants at least one selected pixel: switch pixel (0, 0) on with a large value
+        rec["off"] = [q for q in rec["off"] if (q[0], q[1]) != (0, 0)]
+        rec["lit"] = [x for x in lit if (x[0], x[1]) != (0, 0)] + [[0, 0, 1024.75 if dname == "float32" else 65535]]
+    return rec
+
+
+def tall_mask_recipe(rng, nthreads):
+    """every pixel of a 65534 x 1 / 1 x 65534 mask set, through mask_to_coo with several threads"""
+    ns, nf = [(65534, 1), (1, 65534)][rng.randint(2)]
+    return {"prog": "big", "kind": "coo", "dtype": "uint16", "route": "mask_to_coo", "ns": ns, "nf": nf, "lit": [],
+            "on": [[k // nf, k % nf] for k in range(ns * nf)], "off": [], "cut": 0, "maskdtype": "int8",
+            "perm_seed": 0, "threads": nthreads}
 
 
 OVL_GRIDS = [(4, 65534), (2, 300), (50, 50), (1, 65534), (65534, 1), (3, 7)]
@@ -184,12 +267,29 @@ def exec_coo(rec, m):
     data = np.zeros((ns, nf), dt)
     for r, c, v in rec["lit"]:
         data[r, c] = v
+    full = bool(rec.get("full"))
     ev = {"id": rec.get("id", 0), "kind": "coo", "ns": ns, "nf": nf,
-          "lit": [[r, c] + pair(scaled(v, dname)) for r, c, v in rec["lit"]],
-          "on": rec["on"], "off": rec["off"], "cut": pair(scaled(rec["cut"], dname)),
-          "hasval": True, "hasdense": False, "dense": [], "out_row": [], "out_col": [], "out_val": [], "ret": -1}
+          "lit": [] if full else [[r, c] + pair(scaled(v, dname)) for r, c, v in rec["lit"]],
+          "full": full, "img": [pair(scaled(v, dname)) for v in data.ravel().tolist()] if full else [],
+          "on": rec["on"], "off": rec["off"],
+          "cut": pair(scaled_cut(rec["cut"], dname, kernel=not route.endswith("+threshold"))),
+          "hasval": True, "hasdense": False, "dense": [], "hasdense2": False, "dense_out": [],
+          "hasdense3": False, "dense_arr": [], "out_row": [], "out_col": [], "out_val": [], "ret": -1}
     fr = None
-    tag = "[big %s %dx%d]" % (dname, ns, nf)
+    nthr = int(rec.get("threads", 1))
+    tag = "[big %s %dx%d%s]" % (dname, ns, nf, ", threads=%d" % nthr if nthr != 1 else "")
+
+    seen = []
+
+    def threaded(fn, *a):
+        def run():
+            seen.append(int(m.c.cimaged11_omp_get_max_threads()))
+            return fn(*a)
+        return c14_replay.with_threads(m, nthr, run)
+
+    def guard():        # vacuity guard of the thread sweep (not a verdict about the code under test)
+        if seen and seen[-1] != nthr:
+            raise common.MachineryError("cimaged11_omp_set_num_threads(%d) did not take effect: %r" % (nthr, seen))
     if route.startswith("from_data_mask") or route == "mask_to_coo":
         mdt = {"int8": np.int8, "bool": bool, "uint8": np.uint8}[rec["maskdtype"]]
         msk = np.zeros((ns, nf), mdt)
@@ -201,7 +301,8 @@ def exec_coo(rec, m):
             i = np.full(nnz, c14_replay.P16, np.uint16)
             j = np.full(nnz, c14_replay.P16, np.uint16)
             w = np.full(ns, -1, np.int32)
-            ok, ret = J.call("cImageD11.mask_to_coo" + tag, m.c.mask_to_coo, msk.astype(np.int8), i, j, w)
+            ok, ret = J.call("cImageD11.mask_to_coo" + tag, threaded, m.c.mask_to_coo, msk.astype(np.int8), i, j, w)
+            guard()
             if not ok:
                 return None, J.fails
             J.eq("cImageD11.mask_to_coo" + tag, "return", int(ret), 0)
@@ -210,7 +311,8 @@ def exec_coo(rec, m):
             cnt = np.cumsum((msk != 0).sum(axis=1))
             J.eq("cImageD11.mask_to_coo" + tag, "w", w, cnt.astype(np.int32))
             return ev, J.fails
-        ok, fr = J.call("sparseframe.from_data_mask" + tag, m.sf.from_data_mask, msk, data, {})
+        ok, fr = J.call("sparseframe.from_data_mask" + tag, threaded, m.sf.from_data_mask, msk, data, {})
+        guard()
         if not ok:
             return None, J.fails
         ev["mode"] = "mask"
@@ -262,13 +364,26 @@ def exec_coo(rec, m):
     J.eq("sparse_frame" + tag, "intensity dtype", str(px.dtype), dname)
     ev.update(out_row=fr.row.tolist(), out_col=fr.col.tolist(),
               out_val=[pair(scaled(v, dname)) for v in px.tolist()], ret=int(fr.nnz))
+    def nonzero(d):
+        rr, cc = np.nonzero(np.asarray(d))
+        dv = np.asarray(d)[rr, cc]
+        return [[int(r), int(c)] + pair(scaled(v, dname)) for r, c, v in zip(rr.tolist(), cc.tolist(), dv.tolist())]
     ok, d = J.call("sparse_frame.to_dense" + tag, fr.to_dense, "intensity")
     if ok:
         J.eq("sparse_frame.to_dense" + tag, "shape", tuple(d.shape), (ns, nf))
-        rr, cc = np.nonzero(np.asarray(d))
-        dv = np.asarray(d)[rr, cc]
         ev["hasdense"] = True
-        ev["dense"] = [[int(r), int(c)] + pair(scaled(v, dname)) for r, c, v in zip(rr.tolist(), cc.tolist(), dv.tolist())]
+        ev["dense"] = nonzero(d)
+    # a caller's array full of a poison value; the intensity array itself as `data`
+    out = np.full((ns, nf), c14_replay.poison_of(dt), dt)
+    ok, d = J.call("sparse_frame.to_dense(out=dirty)" + tag, fr.to_dense, "intensity", out)
+    if ok:
+        ev["hasdense2"] = True
+        ev["dense_out"] = nonzero(out)
+    ok, d = J.call(c14_replay.TD_ARRAY + tag, fr.to_dense, px)
+    if ok:
+        J.eq(c14_replay.TD_ARRAY + tag, "shape", tuple(np.asarray(d).shape), (ns, nf))
+        ev["hasdense3"] = True
+        ev["dense_arr"] = nonzero(d)
     J.call("sparse_frame.is_sorted" + tag, fr.is_sorted)
     return ev, J.fails
 
@@ -314,6 +429,124 @@ def exec_ovl(rec, m):
     return ev, J.fails
 
 
+def _next_frame(rng, ns, nf, f1, scen):
+    """a second frame for the given first one (which is left as it is)"""
+    p1 = list(zip(f1["row"], f1["col"]))
+    s1 = set(p1)
+    if scen == "identical":
+        p2 = list(p1)
+    elif scen == "disjoint":
+        p2 = sorted(set(tuple(q) for q in _positions(rng, ns, nf, int(rng.randint(1, 150)))) - s1)
+        if not p2:
+            free = [(r, c) for r in range(min(ns, 3)) for c in range(min(nf, 400)) if (r, c) not in s1]
+            p2 = free[:1] or [p1[0]]
+    elif scen == "small":
+        p2 = sorted(set([p1[rng.randint(len(p1))]] + [tuple(q) for q in _positions(rng, ns, nf, int(rng.randint(0, 3)))]))
+    else:   # partial / many_labels
+        keep = [q for q in p1 if rng.rand() < 0.5]
+        p2 = sorted(set(keep + [tuple(q) for q in _positions(rng, ns, nf, int(rng.randint(0, 120)))])) or [p1[-1]]
+    n2 = int(rng.randint(1, 12))
+    if scen == "many_labels":       # more labels than pixels: the object grows on the label count
+        n2 = len(p2) + int(rng.randint(1, 60))
+    l2 = [int(rng.randint(1, n2 + 1)) for _ in p2]
+    if scen == "many_labels":
+        common_px = sorted(s1 & set(p2))
+        if common_px:               # the largest label id sits on a shared pixel
+            l2[p2.index(common_px[rng.randint(len(common_px))])] = n2
+    return {"row": [int(q[0]) for q in p2], "col": [int(q[1]) for q in p2], "lab": l2, "n": n2}
+
+
+HIST_SCEN = ["partial", "many_labels", "small", "disjoint", "partial", "identical", "many_labels", "small"]
+
+
+def hist_recipe(rng, idx, ncalls):
+    """ONE overlaps_linear / overlaps_matrix object through ncalls different frame pairs: large then small, many
+    labels then few, disjoint in between.  chain: consecutive frames of one scan (also run through pairrow with
+    the frames stored out of omega order and an empty frame in between)."""
+    chain = idx % 2 == 0
+    ns, nf = OVL_GRIDS[rng.randint(len(OVL_GRIDS))]
+    calls = []
+    for k in range(ncalls):
+        if not chain:
+            ns, nf = OVL_GRIDS[rng.randint(len(OVL_GRIDS))]
+        if chain and calls:
+            f1 = calls[-1]["f2"]
+        else:
+            k1 = int(rng.randint(1, 150))
+            p1 = sorted(tuple(q) for q in _positions(rng, ns, nf, k1))
+            n1 = int(rng.randint(1, 12))
+            f1 = {"row": [int(q[0]) for q in p1], "col": [int(q[1]) for q in p1],
+                  "lab": [int(rng.randint(1, n1 + 1)) for _ in p1], "n": n1}
+        scen = HIST_SCEN[(idx + k) % len(HIST_SCEN)]
+        calls.append({"ns": ns, "nf": nf, "scenario": scen, "f1": f1, "f2": _next_frame(rng, ns, nf, f1, scen)})
+    return {"prog": "big", "kind": "hist", "chain": chain, "calls": calls, "nnzmax0": [4, 16384][idx % 2],
+            "npkmax0": [2, 256][(idx // 2) % 2], "perm_seed": int(rng.randint(1 << 30))}
+
+
+HIST_ID0 = 100000
+
+
+def exec_hist(rec, m):
+    """returns (events, failures): one "ovl" event per call with the answers of the two re-used objects (id
+    HIST_ID0 + 100 * recipe + 2 * call) and, for chained histories, one per call with pairrow's answer (id + 1)"""
+    J = c14_replay.Judge()
+    evs = []
+    base = HIST_ID0 + 100 * rec.get("id", 0)
+    ol = m.sf.overlaps_linear(nnzmax=rec["nnzmax0"])
+    om = m.sf.overlaps_matrix(npkmax=rec["npkmax0"])
+
+    def blank(k, which, call):
+        return {"id": base + 2 * k + which, "kind": "ovl", "ns": call["ns"], "nf": call["nf"], "f1": call["f1"],
+                "f2": call["f2"], "lin": {"has": False, "nedge": 0, "none": False, "rcl": []},
+                "mat": {"has": False, "nov": 0, "res": []}, "ovl": {"has": False, "trip": []}}
+    for k, call in enumerate(rec["calls"]):
+        a1, a2 = c14_replay._arrs(call["f1"]), c14_replay._arrs(call["f2"])
+        ev = blank(k, 0, call)
+        tag = "[big history, call %d]" % (k + 1)
+        ok, ans = J.call("sparseframe.overlaps_linear" + tag, c14_replay._quiet, ol, *(a1 + a2))
+        if ok:
+            ev["lin"] = {"has": True, "nedge": int(ans[0]), "none": ans[1] is None,
+                         "rcl": [] if ans[1] is None else np.asarray(ans[1]).tolist()}
+        ok, ans = J.call("sparseframe.overlaps_matrix" + tag, c14_replay._quiet, om, *(a1 + a2))
+        if ok:
+            ev["mat"] = {"has": True, "nov": int(ans[0]), "res": np.asarray(ans[1]).tolist()}
+        evs.append(ev)
+    if rec["chain"] and m.props is not None:
+        calls = rec["calls"]
+        shape = (calls[0]["ns"], calls[0]["nf"])
+        chain = [calls[0]["f1"]] + [cl["f2"] for cl in calls]
+        rs = np.random.RandomState(rec["perm_seed"])
+        # the empty frame sits at one end of the omega order so that every pair of the history is still visited
+        order = list(range(len(chain)))
+        order.insert([0, len(chain)][int(rs.randint(2))], -1)
+        nfr = len(order)
+        perm = rs.permutation(nfr)
+        if list(perm) == sorted(perm):
+            perm = perm[::-1].copy()
+        frames, omega = [None] * nfr, [0.0] * nfr
+        empty = (np.zeros(0, np.uint16), np.zeros(0, np.uint16), np.zeros(0, np.int32), 0)
+        for rank, ci in enumerate(order):
+            frames[perm[rank]] = empty if ci < 0 else c14_replay._arrs(chain[ci])
+            omega[perm[rank]] = -3.0 + 0.05 * rank
+        route = "sinograms.properties.pairrow[big history, %d frames, unsorted omega]" % nfr
+        ok, pairs = J.call(route, c14_replay._quiet, m.props.pairrow, c14_replay._scan(m, frames, shape, omega), 9)
+        if ok:
+            want = {}
+            for rank in range(1, nfr):
+                a, b = order[rank - 1], order[rank]
+                if a >= 0 and b >= 0:
+                    want[(9, int(perm[rank - 1]), 9, int(perm[rank]))] = b - 1
+            J.eq(route, "keys", sorted(tuple(int(x) for x in kk) for kk in pairs.keys()), sorted(want.keys()))
+            for kk, k in sorted(want.items()):
+                if kk in pairs:
+                    ans = pairs[kk]
+                    ev = blank(k, 1, calls[k])
+                    ev["lin"] = {"has": True, "nedge": int(ans[0]), "none": ans[1] is None,
+                                 "rcl": [] if ans[1] is None else np.asarray(ans[1]).tolist()}
+                    evs.append(ev)
+    return evs, J.fails
+
+
 def range_checks(m):
     """return codes 1 / 2 of mask_to_coo (the model's M2C_Check): only reachable with > 65535 rows / columns"""
     J = c14_replay.Judge()
@@ -333,7 +566,7 @@ def range_checks(m):
 
 
 # ------------------------------------------------------------------------------------------------
-CLAUSES = {"coo": ["count", "set", "order", "inimage", "dense"],
+CLAUSES = {"coo": ["count", "set", "order", "inimage", "dense", "dense_out", "dense_arr"],
            "ovl": ["lin_set", "lin_once", "lin_none", "mat_set", "mat_once", "lin_eq_mat", "ovl_set", "ovl_once"]}
 
 
@@ -369,27 +602,54 @@ def judge_events(chk, F, recipes, events, name):
     ver = validate(chk, events, name)
     byid = {r["id"]: r for r in recipes}
     for rid, v in ver.items():
-        rec = byid[rid]
+        rec = byid[rid] if rid < HIST_ID0 else byid[(rid - HIST_ID0) // 100]
         fails = []
         for cl in CLAUSES[v["kind"]]:
             if not v[cl]:
-                route = _route_of(rec, cl)
+                route = _route_of(rec, cl, rid)
                 fails.append((route, "clause " + cl, "%s: clause %s of TraceSparse does not hold on the logged "
                               "result of a seeded %s case" % (route, cl, rec["kind"])))
         if fails:
             F.add(rec, fails)
-    chk.notes["seeded_cases"] = {"recipes": len(recipes), "events_judged_by_TLC": len(events),
-                                 "ovl_with_pairs": sum(1 for v in ver.values() if v["kind"] == "ovl" and v["npairs"] > 0)}
+    coo = [r for r in recipes if r.get("kind") == "coo"]
+    hist = [r for r in recipes if r.get("kind") == "hist"]
+    chk.notes["seeded_cases"] = {
+        "recipes": len(recipes), "events_judged_by_TLC": len(events),
+        "ovl_with_pairs": sum(1 for v in ver.values() if v["kind"] == "ovl" and v["npairs"] > 0),
+        # vacuity counts of the instance families
+        "full_image_events (whole image in the event)": sum(1 for e in events if e.get("full")),
+        "selection_is_every_pixel": sum(1 for e in events if e["kind"] == "coo" and e["ret"] == e["ns"] * e["nf"] and e["ret"] > 4),
+        "float_cut_negative": sum(1 for r in coo if r["dtype"] == "float32" and r["route"] != "mask_to_coo" and float(r["cut"]) < 0),
+        "cut_not_a_scaled_integer": sum(1 for r in coo if r["dtype"] != "uint16" and float(r["cut"]) * 4 != int(float(r["cut"]) * 4)),
+        "mask_routes_by_threads": {str(t): sum(1 for r in coo if r.get("threads", 1) == t and
+                                               (r["route"].startswith("from_data_mask") or r["route"] == "mask_to_coo"))
+                                   for t in (1, 2, 4, 16)},
+        "to_dense_dirty_out": sum(1 for e in events if e.get("hasdense2")),
+        "to_dense_array": sum(1 for e in events if e.get("hasdense3")),
+        "histories": len(hist), "history_calls_on_shared_objects": sum(1 for e in events if e["id"] >= HIST_ID0 and e["id"] % 2 == 0),
+        "history_calls_through_pairrow": sum(1 for e in events if e["id"] >= HIST_ID0 and e["id"] % 2 == 1),
+        "history_calls_sharing_no_pixel": sum(1 for e in events if e["id"] >= HIST_ID0 and ver[e["id"]]["npairs"] == 0)}
     e = events[len(events) // 2]
     chk.sample({"seeded_event_kind": e["kind"], "id": e["id"], "verdict": ver[e["id"]]}, limit=8)
     return ver
 
 
-def _route_of(rec, clause):
+def _route_of(rec, clause, rid=0):
+    if rec["kind"] == "hist":
+        if rid % 2 == 1:
+            return "sinograms.properties.pairrow (scan with unsorted omega and an empty frame)"
+        if clause.startswith("lin_eq"):
+            return "sparseframe.overlaps_linear vs overlaps_matrix (objects with a history)"
+        return {"lin": "sparseframe.overlaps_linear (object with a history)",
+                "mat": "sparseframe.overlaps_matrix (object with a history)"}[clause.split("_")[0]]
     if rec["kind"] == "coo":
         r = rec["route"]
         if clause == "dense":
             return "sparse_frame.to_dense"
+        if clause == "dense_out":
+            return "sparse_frame.to_dense(out=dirty)"
+        if clause == "dense_arr":
+            return c14_replay.TD_ARRAY
         return {"mask_to_coo": "cImageD11.mask_to_coo", "tosparse": "cImageD11.tosparse_" + {"uint16": "u16", "uint32": "u32", "float32": "f32"}[rec["dtype"]],
                 "from_data_mask": "sparseframe.from_data_mask", "from_data_cut": "sparseframe.from_data_cut",
                 "from_data_mask+threshold": "sparse_frame.threshold", "from_data_mask+sort": "sparse_frame.sort",
@@ -402,13 +662,21 @@ def _route_of(rec, clause):
 
 def make_recipes(tier):
     rng = np.random.RandomState(common.seed() + 1401)
-    ncoo, novl = (63, 60) if tier == "quick" else (420, 360)
+    ncoo, novl, nfull, nhist, ncalls = (63, 60, 18, 4, 6) if tier == "quick" else (420, 360, 108, 24, 8)
     recipes = []
     for idx in range(ncoo):
         recipes.append(coo_recipe(rng, idx))
     for idx in range(novl):
         recipes.append(ovl_recipe(rng, idx))
     recipes.append({"prog": "big", "kind": "range"})
+    # appended (the recipes above keep their ids and their random stream)
+    rng2 = np.random.RandomState(common.seed() + 1402)
+    for idx in range(nfull):
+        recipes.append(full_recipe(rng2, idx))
+    for nt in ((16,) if tier == "quick" else (2, 4, 16)):
+        recipes.append(tall_mask_recipe(rng2, nt))
+    for idx in range(nhist):
+        recipes.append(hist_recipe(rng2, idx, ncalls))
     for k, r in enumerate(recipes):
         r["id"] = k
     return recipes
